@@ -66,7 +66,16 @@ def _task(a):
             r["kind"] = "bounded"
             r["wall_s"] = round(time.time() - t0, 3)
             return r
-        return verify.run_unit(unit, cfg, tier=tier, known=known)
+        import signal
+
+        def _alarm(signum, frame):
+            raise verify.UnitTimeout()
+        signal.signal(signal.SIGALRM, _alarm)
+        signal.alarm(int(os.environ.get("PYVC_UNIT_BUDGET_S", "600" if tier == "quick" else "5400")))
+        try:
+            return verify.run_unit(unit, cfg, tier=tier, known=known)
+        finally:
+            signal.alarm(0)
     except Exception:
         return {"unit": unit.unit_name(), "cfg": unit.cfg_label(cfg), "crash": traceback.format_exc()[-2000:],
                 "obligations": [], "paths": 0, "kind": "?"}
@@ -136,7 +145,7 @@ def main(argv=None):
     results = []
     if args.jobs > 1 and len(tasks) > 1:
         ctxm = mp.get_context("fork")
-        with ctxm.Pool(min(args.jobs, len(tasks))) as pool:
+        with ctxm.Pool(min(args.jobs, len(tasks)), maxtasksperchild=1) as pool:   # fresh process per unit (no state leaks)
             for r in pool.imap_unordered(_task, tasks, chunksize=1):
                 results.append(r)
                 if args.verbose:
@@ -201,6 +210,14 @@ def report(prop, args, results, kf_lines, kf_replayed, known, wall, seed):
             continue
         if r.get("unsupported"):
             undecided.append((r["unit"], r.get("cfg"), "UNSUPPORTED " + r["unsupported"]))
+        bf = r.get("bounded_fallback")
+        if bf:
+            bounded.append({"unit": r["unit"], "cfg": r.get("cfg"), "bound": bf.get("bound"), "cases": bf.get("cases"),
+                            "violations": len(bf.get("violations", [])), "reason": "stand-in for an undecided unit"})
+            for v in bf.get("violations", []):
+                violations.append({"unit": r["unit"], "cfg": r.get("cfg"), "obligation": "bounded-stand-in",
+                                   "model": v["model"], "replay": v["replay"], "fn": r.get("fn"),
+                                   "goal": "native small-scope check of the same contract (the symbolic unit was undecided)"})
         paths += r.get("paths", 0)
         solver_time += r.get("solver_time_s", 0)
         v = r.get("vacuity", {})
